@@ -633,8 +633,15 @@ def verb_table(ctx, repo):
 def framing(ctx, repo):
     interp = Interp(repo, max_depth=8)
     cname = "GeckoPacketProtocolHandler"
-    m = repo.mod("driver/protocol/packet.py")
+    # the framing tags: module constants *_OPEN / *_CLOSE of the module that defines the packet handler (or, when they were
+    # moved, of whichever protocol module defines them)
+    m = repo.cls(cname).mod
     tags = {k: repo.try_fold(v, m) for k, v in m.consts.items() if k.endswith("_OPEN") or k.endswith("_CLOSE")}
+    if "PACKET_OPEN" not in tags:
+        for m2 in repo.all_mods():
+            for k, v in m2.consts.items():
+                if (k.endswith("_OPEN") or k.endswith("_CLOSE")) and k not in tags:
+                    tags[k] = repo.try_fold(v, m2)
     # R4 (iii): send_bytes layout with symbolic identifiers and payload
     msg = new_handler(repo, interp, cname, [], {"parms": ("ip", 1, SymBytes.blob("P2"), SymBytes.blob("P3")), "content": SymBytes.blob("payload")})
     sb = interp.call(repo.method(cname, "send_bytes"), msg, [])
@@ -841,8 +848,12 @@ def hello_payload_extraction(ctx, repo, rule="R6"):
     decoder first inspects (startswith/split/...) must be that payload, untouched."""
     interp = Interp(repo, max_depth=8)
     cname = "GeckoHelloProtocolHandler"
-    m = repo.mod("driver/protocol/hello.py")
-    op, cl = repo.try_fold(m.consts.get("HELLO_OPEN"), m), repo.try_fold(m.consts.get("HELLO_CLOSE"), m)
+    m = repo.cls(cname).mod
+    op = cl = None
+    for m2 in [m] + list(repo.all_mods()):
+        if "HELLO_OPEN" in m2.consts and "HELLO_CLOSE" in m2.consts:
+            op, cl = repo.try_fold(m2.consts.get("HELLO_OPEN"), m2), repo.try_fold(m2.consts.get("HELLO_CLOSE"), m2)
+            break
     if not isinstance(op, bytes) or not isinstance(cl, bytes):
         raise AnalysisError("HELLO_OPEN/HELLO_CLOSE constants not found")
     wire = SymBytes.of(op) + SymBytes.blob("payload") + SymBytes.of(cl)
